@@ -27,6 +27,7 @@ RULE = (
     "raw h5py) of every neighbour is unchanged and each still reads as its model. Each fault is one evaluation. "
     "Non-trivial = fault at chunk index >= 1 (data already written) with >= 1 neighbour. Distinct by (digest of "
     "the outer case, fault)."
+    " Also: destination '/' in append mode beside collections in sub-groups; a fault in the very last step (metadata that cannot be serialised, after all chunks and the indexes were written)."
 )
 ASSUMPTIONS = [
     "crash points are chunk boundaries (exception or hard process exit between chunks), as the property states; "
